@@ -53,6 +53,7 @@ def pureRpc : List String → Option String
       let n ← n.toNat?
       let (s, e) := Rpc.getRange i c n
       pure s!"{s} {e}"
+  | ["rpcserver-survived"] => some "ok"
   | ["rpc-mom-page", H, i, c] => pageLine H i c
   | ["rpc-acc-page", H, i, c] => pageLine H i c
   | ["rpc-mom-height", H, h, c] => heightLine H h c
